@@ -113,6 +113,7 @@ func init() {
 			{Name: "random", TShards: 2, Run: c13Random},
 			{Name: "bytes", Run: c13Bytes},
 			{Name: "afteruse", Run: afterUse(c13Bytes)},
+			{Name: "srcviews", TShards: 2, Run: srcViewUnit(viewCallsC13)},
 			{Name: "longcontext", QShards: 8, TShards: 12, Run: func(c *Ctx) {
 				longContextPanics(c, 0, "ACGTacgt", []byte{'N', 'U', 'u', '@', 0, 0xff, 'B', 0x80, '`'}, map[string]func([]byte){
 					"DNATo2Bit": func(s []byte) { sequtil.DNATo2Bit(nil, s) },
@@ -141,6 +142,7 @@ func init() {
 			{Name: "frames", TShards: 4, Run: c14Frames},
 			{Name: "panics", Run: c14Panics},
 			{Name: "afteruse", Run: afterUse(c14Panics)},
+			{Name: "srcviews", TShards: 2, Run: srcViewUnit(viewCallsC14)},
 			{Name: "aminoname", Run: c14AminoName},
 			{Name: "framepanics", Run: c14FramePanics},
 			{Name: "gigantic", Run: c14Gigantic},
